@@ -857,7 +857,8 @@ func (msg *Message) Decrypt(finder KeyWrapperFinder) (plaintext []byte, err erro
 		if err != nil {
 			return nil, fmt.Errorf("jwe: failed to decrypt: %w", err)
 		}
-		if merged.CompressionAlgorithm() == jwa.DEF {
+		// zip MUST be integrity protected; RFC 7516 Section 4.1.3.
+		if msg.header.CompressionAlgorithm() == jwa.DEF {
 			buf := bytes.NewBuffer(make([]byte, 0, len(plaintext)))
 			r := flate.NewReader(bytes.NewReader(plaintext))
 			if _, err := buf.ReadFrom(r); err != nil {
